@@ -5813,12 +5813,28 @@ func evalOnConstString(fn *ssa.Function, k string) ssa.Value {
 			}
 			v := last.Results[0]
 			if ph, ok := v.(*ssa.Phi); ok && ph.Block() == b && prev != nil {
+				v = nil
 				for i, pr := range b.Preds {
 					if pr == prev {
-						return ph.Edges[i]
+						v = ph.Edges[i]
 					}
 				}
-				return nil
+				if v == nil {
+					return nil
+				}
+			}
+			// `return s == A || s == B`: the last operand arrives as a comparison, not a constant
+			if bo, ok := v.(*ssa.BinOp); ok && (bo.Op == token.EQL || bo.Op == token.NEQ) {
+				var ks string
+				var isK bool
+				if bo.X == p {
+					ks, isK = constString(bo.Y)
+				} else if bo.Y == p {
+					ks, isK = constString(bo.X)
+				}
+				if isK {
+					return ssa.NewConst(constant.MakeBool((ks == k) == (bo.Op == token.EQL)), types.Typ[types.Bool])
+				}
 			}
 			return v
 		case *ssa.If:
@@ -6098,6 +6114,12 @@ func extraC07OldStatusFromRecord(c *Ctx, r *Report) {
 				}
 				if ct, ok := v.(*ssa.ChangeType); ok {
 					leaf(ct.X, depth-1)
+					return
+				}
+				if prm, ok := v.(*ssa.Parameter); ok && len(paramBindings[prm]) > 0 && prm.Parent() != f {
+					for _, a := range paramBindings[prm] { // a parameter of a transition predicate: judge what it stands for
+						leaf(a, depth-1)
+					}
 					return
 				}
 				nStatus++
@@ -6787,7 +6809,23 @@ func extraC12IndependentRangeChecks(c *Ctx, r *Report) {
 		return nil
 	}
 	n := 0
-	for _, ret := range returnsOf(f) {
+	// Validate itself and the check functions it may have been split into (func(*AnthropicRequest) error in the package)
+	scope := []*ssa.Function{f}
+	for _, g := range c.Funcs {
+		if g == f || g.Parent() != nil || g.Blocks == nil || !strings.HasSuffix(fnPkgPath(g), pkgAnthropic) {
+			continue
+		}
+		sig := g.Signature
+		if sig.Results().Len() != 1 || sig.Results().At(0).Type().String() != "error" || len(g.Params) != 1 || !isNamed(g.Params[0].Type(), pkgAnthropic, "AnthropicRequest") {
+			continue
+		}
+		scope = append(scope, g)
+	}
+	var allRets []*ssa.Return
+	for _, g := range scope {
+		allRets = append(allRets, returnsOf(g)...)
+	}
+	for _, ret := range allRets {
 		if len(ret.Results) == 0 || isNilConst(ret.Results[len(ret.Results)-1]) {
 			continue
 		}
